@@ -102,7 +102,10 @@ XercesDOMSupport::getUnparsedEntityURI(
                     const DOMEntity* const    theEntity =
                         static_cast<const DOMEntity*>(theNode);
 
-                    if(length(theEntity->getNotationName()) != 0) // then it's unparsed
+                    const XMLCh* const  theNotationName = theEntity->getNotationName();
+
+                    // (a parsed entity has no notation name at all)
+                    if(theNotationName != 0 && length(theNotationName) != 0) // then it's unparsed
                     {
                         // The draft says: "The XSLT processor may use the public
                         // identifier to generate a URI for the entity instead of the URI
